@@ -1,5 +1,6 @@
 (* C07 — @leftrec rules terminate and build the left-nested tree of the longest growth. *)
 From PegV Require Import Utf8 State Terminals Syntax Fields Literals Model FuelMono Leftrec Extracted.
+From PegV Require WellFormed LRTerm.
 
 Theorem C07_facts :
   further_gt Extracted.scfg = true /\ leftrec_closed Extracted.rcfg = true /\
@@ -57,3 +58,45 @@ Theorem C07_fuel_monotone : forall ustate scfg tcfg fcfg rcfg hk g n m rule_name
   m_parse ustate scfg tcfg fcfg rcfg hk g m rule_name input u = m_parse ustate scfg tcfg fcfg rcfg hk g n rule_name input u.
 Proof. intros. apply m_parse_mono; auto. Qed.
 Print Assumptions C07_fuel_monotone.
+
+(* ---- "Parsing a rule marked @leftrec terminates on every input" -------------------------------
+   For EVERY grammar in the property's quantifier - left recursion goes through @leftrec rules only
+   (direct, or indirect through other rules), no closure over a body that can succeed without
+   consuming; decided by the checkable certificate LRTerm.wf_check_lr, which is WellFormed.wf_check
+   with references to @leftrec rules exempt from the rank condition - with any rules @memoize, any
+   number of @leftrec rules nested or at the same position, arbitrary stateful hooks, every rule and
+   every input (valid UTF-8 or not): the model of the generated parser returns, with a result that
+   no longer depends on the recursion bound from some bound on.  Measure: remaining input, number of
+   @leftrec rules not yet open at the position, rank, size; each growth loop by the strict progress
+   test (fact further_gt) and the stored seed (fact leftrec_closed). *)
+Theorem C07_terminates :
+  forall (ustate : Type) (tcfg : term_cfg) (fcfg : fields_cfg) (hk : hooks ustate) (g : grammar)
+         (nul : name -> bool) (rk : WellFormed.runit -> nat),
+    LRTerm.wf_check_lr g nul rk = true ->
+    forall rule_name input u,
+    exists F x, fst x <> MFuel /\
+      forall f, F <= f -> m_parse ustate Extracted.scfg tcfg fcfg Extracted.rcfg hk g f rule_name input u = x.
+Proof.
+  intros ustate tcfg fcfg hk g nul rk W.
+  exact (LRTerm.lr_terminates ustate Extracted.scfg tcfg fcfg Extracted.rcfg hk g nul rk W eq_refl eq_refl).
+Qed.
+Print Assumptions C07_terminates.
+
+(* the certificate is computed and then checked; a calculator with two @leftrec rules passes,
+   the same grammar without the marker does not *)
+Theorem C07_well_formed_terminates :
+  forall (ustate : Type) (tcfg : term_cfg) (fcfg : fields_cfg) (hk : hooks ustate) (g : grammar),
+    LRTerm.well_formed_lr g = true ->
+    forall rule_name input u,
+    exists F x, fst x <> MFuel /\
+      forall f, F <= f -> m_parse ustate Extracted.scfg tcfg fcfg Extracted.rcfg hk g f rule_name input u = x.
+Proof.
+  intros ustate tcfg fcfg hk g W.
+  exact (LRTerm.well_formed_lr_terminates ustate Extracted.scfg tcfg fcfg Extracted.rcfg hk g W eq_refl eq_refl).
+Qed.
+Print Assumptions C07_well_formed_terminates.
+
+Theorem C07_instances :
+  LRTerm.well_formed_lr LRTerm.g_calc = true /\ LRTerm.well_formed_lr LRTerm.g_calc_unmarked = false.
+Proof. split; [exact LRTerm.calc_well_formed_lr|exact LRTerm.unmarked_not_well_formed_lr]. Qed.
+Print Assumptions C07_instances.
